@@ -62,7 +62,8 @@ theorem timeout_only_if_passed (c : Conn) (h : Reach c) (op : ReadDeadline.Op) (
     exact (release_timeout ht).2
   | arrive =>
     simp only [step] at ht
-    split at ht <;> cases ht
+    repeat' split at ht
+    all_goals cases ht
   | read =>
     simp only [step] at ht ⊢
     split at ht
@@ -70,7 +71,11 @@ theorem timeout_only_if_passed (c : Conn) (h : Reach c) (op : ReadDeadline.Op) (
     · split at ht
       · rename_i hb hc
         rw [if_neg hb, if_pos hc]; exact hc
-      · split at ht <;> cases ht
+      · repeat' split at ht
+        all_goals cases ht
+  | close =>
+    simp only [step] at ht
+    split at ht <;> cases ht
 
 /-- a blocked read is released with a timeout once its deadline passes -/
 theorem blocked_read_released_at_expiry (c : Conn) (h : Reach c) (t : Int) (dt : Nat)
@@ -110,11 +115,13 @@ theorem timeout_persists (c : Conn) (h : Reach c) (t : Int) (hd : c.d.deadline =
       · simp only []; rw [settle_now]; show t ≤ c.d.now + dt; omega
     · rw [step_d]; exact hc
 
-/-- setting a later or the zero deadline makes reads wait for (or return) data again -/
+/-- setting a later or the zero deadline makes reads wait for (or return) data again — also on a
+    closed connection: buffered data is returned, then end of file, never the old timeout -/
 theorem later_or_zero_deadline_reads_again (c : Conn) (h : Reach c) (nt : Option Int)
     (hn : ∀ t, nt = some t → c.d.now < t) (hb : c.blocked = false) :
     let c' := (step c (.setDeadline nt)).1
-    (c'.queued > 0 → (step c' .read).2 = .data) ∧ (c'.queued = 0 → (step c' .read).2 = .blocked) := by
+    (c'.queued > 0 → (step c' .read).2 = .data) ∧
+    (c'.queued = 0 → (step c' .read).2 = (if c'.closed then .eof else .blocked)) ∧ c'.closed = c.closed := by
   intro c'
   have S' : Settled c'.d := settled_step (settled_reach h) (.setDeadline nt)
   have hc' : c' = { c with d := settle (c.d.set nt) 4 } := by
@@ -132,18 +139,42 @@ theorem later_or_zero_deadline_reads_again (c : Conn) (h : Reach c) (nt : Option
       rw [hdl] at ht
       have := hn t ht
       omega
-  constructor
+  refine ⟨?_, ?_, ?_⟩
   · intro hq
     simp only [step, hb', hdc, hq]
     simp
   · intro hq
     simp only [step, hb', hdc, hq]
-    simp
+    cases c'.closed <;> simp
+  · rw [hc']
 
 -- the pinned vnet socket's failing history on the model: the deadline expires unobserved, is extended,
 -- and the next read blocks (no early timeout); then the extended deadline releases it
 example : ((runConn Conn.new [.setDeadline (some 5), .advance 10, .setDeadline (some 2000), .read]).blocked,
            (step (runConn Conn.new [.setDeadline (some 5), .advance 10, .setDeadline (some 2000), .read]) (.advance 1990)).2)
     = (true, Res.timeout) := by decide
+
+/-- Close never produces a timeout and does not touch the deadline: the deadline signal after it is
+    what it was before, so `signal_iff_passed` keeps deciding every later read -/
+theorem close_keeps_deadline (c : Conn) : (step c .close).1.d = c.d ∧ (step c .close).2 ≠ .timeout := by
+  refine ⟨step_d c .close, ?_⟩
+  simp only [step]
+  split <;> simp
+
+/-- on a closed connection nothing blocks: a read returns a timeout (deadline passed), data, or end of file -/
+theorem closed_never_blocks (c : Conn) (h : Reach c) (hc : c.closed = true) :
+    c.blocked = false ∧ (step c .read).2 ≠ .blocked := by
+  have inv : ∀ (ops : List ReadDeadline.Op) (c0 : Conn), (c0.closed = true → c0.blocked = false) →
+      (runConn c0 ops).closed = true → (runConn c0 ops).blocked = false := by
+    intro ops
+    induction ops with
+    | nil => intro c0 I; exact I
+    | cons op ops ih => intro c0 I; exact ih _ (TV.Proofs.ReadDeadline.closed_unblocked_step I op)
+  obtain ⟨ops, rfl⟩ := h
+  have hb := inv ops Conn.new (fun _ => rfl) hc
+  refine ⟨hb, ?_⟩
+  simp only [step, hb, hc]
+  repeat' split
+  all_goals simp at *
 
 end TV.Props.C10
